@@ -950,6 +950,17 @@ def judge(out, case, tables, real, drv_replies, rows, res, cdir, pair_rejected=F
         sig = classify(case, tables, row, exp, desc, res)
         out.violation(sig, f"{row['dest']}: expected {exp} (from {winner(case, row)}), the handler received {got}",
                       dict(rp, row=[row['owner'], row['dest']], expected=exp, got=got))
+    # the backend constructor receives exactly the options that have a value, with those values
+    kwargs = res['handler']['ctor'].get('kwargs')
+    if kwargs is None:
+        out.violation('options:backend-constructor:not-called', f"the backend was not constructed: {res['handler']['ctor']}", rp)
+    else:
+        want = {row['dest']: exp_all[(row['owner'], row['dest'])][1] for row in rows if row['scope'] == 2}
+        want = {k: v for k, v in want.items() if v != MISSING}
+        for k in sorted(set(want) | set(kwargs)):
+            if want.get(k) != kwargs.get(k) and args.get(k) == want.get(k, MISSING):
+                out.violation(f'options:backend-constructor:{k}', f'backend constructor keyword {k}: expected {want.get(k, "not passed")}, '
+                                                                  f'got {kwargs.get(k, "not passed")}', rp)
     # effective backend + root logger level
     rrow = tables.by_key[('', 'repository')]
     exp_repo = exp_all.get(('', 'repository'))
@@ -978,6 +989,114 @@ def slim(res):
         h = res['handler']
         return {'outcome': 'ok', 'args': h['args'], 'backend': [h['backend_module'], h['connection_string']], 'ctor': h['ctor']}
     return {k: v for k, v in res.items() if k in ('outcome', 'exit_code', 'exc', 'msg', 'stderr_tail', 'rc')}
+
+
+# ------------------------------------------------------------------------------------------------ documented scenarios
+def T(x):
+    return tv(x)
+
+
+def scenarios(base):
+    """fixed, table-independent examples of the documented behaviour (README): argv / environment / configuration text and
+    the values the handler must receive.  They do not depend on what the extractor recognised."""
+    cache = str(base / 'xdgcache' / 'replicat')
+    CONF = ('concurrent = 10\ncache-directory = "/conf/cache"\nhide-progress = true\nlog-level = "error"\n'
+            '[work]\nconcurrent = 15\nno-cache = true\npassword = "file-pw"\nrepository = "vfy:from-profile"\ntoken = "tok-profile"\n'
+            'account-id = "acc"\nport = "9877"\n'
+            '[quiet-off]\nhide-progress = false\nno-cache = "false"\nlog-level = "debug"\n')
+    S = []
+
+    def add(name, argv, env, conf, mode, expect, backend=None, ctor=None, root=None):
+        S.append({'name': name, 'argv': argv, 'env': env, 'config': conf, 'mode': mode, 'expect': expect, 'backend': backend,
+                  'ctor': ctor, 'root': root})
+
+    add('defaults only', ['clean'], {}, None, 'none',
+        {'concurrent': T(5), 'quiet': T(False), 'cache_directory': T(Path(cache)), 'password': T(None), 'key': T(None)}, root=30)
+    add('default section', ['clean'], {}, CONF, 'explicit',
+        {'concurrent': T(10), 'quiet': T(True), 'cache_directory': T(Path('/conf/cache'))}, root=40)
+    add('profile over default section', ['clean', '--profile', 'work'], {}, CONF, 'default-location',
+        {'concurrent': T(15), 'cache_directory': T(None), 'password': T(b'file-pw'), 'repository': T(('vfy', 'from-profile'))},
+        backend=('vfy', 'from-profile'), ctor={'token': T('tok-profile'), 'account_id': T('acc'), 'port': T(9877)})
+    add('environment over profile', ['clean', '--profile', 'work'],
+        {'REPLICAT_PASSWORD': 'env-pw', 'REPLICAT_REPOSITORY': 'vfy:from-env', 'VFY_TOKEN': 'tok-env', 'VFY_LEGACY': 'true'}, CONF, 'explicit',
+        {'password': T(b'env-pw'), 'repository': T(('vfy', 'from-env')), 'concurrent': T(15)},
+        backend=('vfy', 'from-env'), ctor={'token': T('tok-env'), 'legacy': T(True), 'account_id': T('acc')})
+    add('command line over everything', ['clean', '--profile', 'work', '-c', '3', '-p', 'cli-pw', '-r', 'vfy:from-cli', '--token', 'tok-cli',
+                                         '--cache-directory', '/cli/cache', '--port', '1'],
+        {'REPLICAT_PASSWORD': 'env-pw', 'REPLICAT_REPOSITORY': 'b2:from-env', 'VFY_TOKEN': 'tok-env', 'VFY_PORT': '2'}, CONF, 'explicit',
+        {'concurrent': T(3), 'password': T(b'cli-pw'), 'repository': T(('vfy', 'from-cli')), 'cache_directory': T(Path('/cli/cache'))},
+        backend=('vfy', 'from-cli'), ctor={'token': T('tok-cli'), 'port': T(1), 'account_id': T('acc')})
+    add('profile switches a default off', ['clean', '--profile', 'quiet-off'], {}, CONF, 'explicit',
+        {'quiet': T(False), 'cache_directory': T(Path('/conf/cache')), 'concurrent': T(10)}, root=10)
+    add('no-cache = "false" is false', ['clean', '--profile', 'p'], {}, 'no-cache = true\n[p]\nno-cache = "false"\n', 'explicit',
+        {'cache_directory': T(Path(cache))})
+    add('-v beats log-level', ['clean', '-v'], {}, CONF, 'explicit', {'concurrent': T(10)}, root=20)
+    add('--ignore-config', ['clean', '--ignore-config'], {}, CONF, 'default-location',
+        {'concurrent': T(5), 'quiet': T(False), 'cache_directory': T(Path(cache))}, root=30)
+    add('--no-cache over the file', ['clean', '--no-cache', '-q'], {}, CONF, 'explicit', {'cache_directory': T(None), 'quiet': T(True)})
+    add('README custom backend example', ['init', '-r', 'vfy:...', '--account-id', '12345', '--port', '9877'],
+        {'VFY_LEGACY': 'true', 'VFY_TOKEN': 'pr0ud'}, None, 'none', {},
+        backend=('vfy', '...'), ctor={'account_id': T(12345), 'token': T('pr0ud'), 'port': T(9877), 'legacy': T(True),
+                                      'label': T('plain'), 'ratio': T(None)})
+    add('other backend from the environment', ['clean'], {'REPLICAT_REPOSITORY': 's3c:bucket', 'S3C_KEY_ID': 'kid', 'S3C_ACCESS_KEY': 'ak',
+                                                         'S3C_REGION': 'eu', 'S3C_HOST': 'h.example'}, None, 'none', {},
+        backend=('s3c', 'bucket'), ctor={'key_id': T('kid'), 'access_key': T('ak'), 'region': T('eu'), 'host': T('h.example'), 'scheme': T('https')})
+    return S
+
+
+def run_scenarios(out, base):
+    sc = scenarios(base)
+
+    def one(i_s):
+        i, s = i_s
+        cdir = base / f's{i}'
+        (cdir / 'xdg' / 'replicat').mkdir(parents=True, exist_ok=True)
+        argv = list(s['argv'])
+        if s['config'] is not None:
+            if s['mode'] == 'explicit':
+                (cdir / 'conf.toml').write_text(s['config'])
+                argv = [argv[0], '--config', str(cdir / 'conf.toml')] + argv[1:]
+            else:
+                (cdir / 'xdg' / 'replicat' / 'replicat.toml').write_text(s['config'])
+        spec = {'repo': str(REPO), 'paths': [str(PYMOD), str(CUSTOM)], 'argv': argv, 'cwd': str(cdir)}
+        (cdir / 'case.json').write_text(json.dumps(spec))
+        envx = {'HOME': str(cdir / 'home'), 'XDG_CONFIG_HOME': str(cdir / 'xdg'), 'XDG_CACHE_HOME': str(base / 'xdgcache')}
+        envx.update(s['env'])
+        p = subprocess.run([PY, str(CHILD), str(cdir / 'case.json')], capture_output=True, env=clean_env(envx), timeout=120)
+        res = {'outcome': 'crash'}
+        for line in p.stdout.decode('utf-8', 'replace').splitlines():
+            if line.startswith('C19RESULT '):
+                res = json.loads(line[len('C19RESULT '):])
+        return argv, res
+
+    with concurrent.futures.ThreadPoolExecutor(16) as ex:
+        results = list(ex.map(one, enumerate(sc)))
+    for s, (argv, res) in zip(sc, results):
+        rp = {'scenario': s['name'], 'argv': argv, 'env': s['env'], 'config': s['config'], 'observed': slim(res) if res['outcome'] in ('ok', 'exit', 'exc') else res}
+        out.case({'kind': 'scenario', 'name': s['name'], 'argv': argv, 'env': s['env']}, nontrivial=len(s['env']) + (s['config'] is not None) + (len(argv) > 2) >= 2)
+        out.count('kind:scenario')
+        sig = 'options:scenario:' + s['name'].replace(' ', '-')[:40]
+        if res['outcome'] != 'ok':
+            out.violation(sig, f"documented scenario {s['name']!r} did not reach the handler: {slim(res) if 'outcome' in res else res}", rp)
+            continue
+        h = res['handler']
+        bad = []
+        for k, v in s['expect'].items():
+            if h['args'].get(k) != v:
+                bad.append(f"{k}: expected {v}, got {h['args'].get(k)}")
+        if s['backend'] is not None:
+            got = (h['backend_module'].rsplit('.', 1)[-1], h['connection_string'].get('v'))
+            if got != tuple(s['backend']):
+                bad.append(f"backend: expected {s['backend']}, got {got}")
+        for k, v in (s['ctor'] or {}).items():
+            if h['ctor'].get('kwargs', {}).get(k) != v:
+                bad.append(f"constructor keyword {k}: expected {v}, got {h['ctor'].get('kwargs', {}).get(k)}")
+        if s['root'] is not None and h.get('root_level') != s['root']:
+            bad.append(f"root logger level: expected {s['root']}, got {h.get('root_level')}")
+        if bad:
+            out.violation(sig, f"documented scenario {s['name']!r}: " + '; '.join(bad), rp)
+        else:
+            out.count('scenario-ok')
 
 
 # ------------------------------------------------------------------------------------------------ entry points
@@ -1063,6 +1182,7 @@ def run(out, drv, info):
         out.extra['option_rows'] = len(tables.rows)
         out.extra['sub_commands'] = len(tables.command_names())
         # SemOK on the fly: recorded while building requests (see model_request → chase)
+        run_scenarios(out, base)
         run_cases(out, drv, tables, real, cases, base, 'g')
         semok_check(out, tables, real)
     finally:
